@@ -1184,3 +1184,65 @@ def check_skip_twins(prog, rep, rule):
         rep.finding(rule, 'SkipValueImpl|extent', ft.loc(),
                     'string and stream SkipValueImpl skip a different number of bytes/values for first byte(s) %s' % fmt_bytes([b for b, _, _ in diff]),
                     {'cases': [('0x%02x' % b, str(x), str(y)) for b, x, y in diff[:8]]}, func=ft.id, count=len(diff))
+
+
+def check_ext_size(prog, rep, rule):
+    """ReadExtSize (both reader copies) is the one place where the length field of str/bin/ext/array/map 8/16/32 is decoded; the decision
+    tables treat it as 'an unsigned length of k bytes'. Executed for k = 1, 2, 4: exactly one read of k bytes, into an unsigned object, whose
+    value is returned (a signed object sign-extends lengths >= 128 / 32768 into ~4e9); any other k ends in an exception."""
+    fs = [f for f in prog.funcs.values() if f.name == 'ReadExtSize' and f.body is not None and 'msgpack_readers' in f.relfile]
+    if len(fs) < 2:
+        raise AnalysisBroken('%s: expected the two ReadExtSize copies, found %d' % (rule, len(fs)))
+    table = bytecode_table(prog)
+    for f in sorted(fs, key=lambda g: g.id):
+        kind = 'stream' if any('CBinaryStreamReader' in f.type(p) for p in f.params if 't' in p) else 'string'
+        rep.touch(f)
+        kparam = [p for p in f.params if 't' in p and base_type(f.type(p)) in INT_TYPES and 'size_t' not in f.type(p) and p.get('n') != 'pos']
+        kparam = [p for p in kparam if INT_TYPES[base_type(f.type(p))][0] <= 8] or kparam
+        if not kparam:
+            raise AnalysisBroken('%s: the byte-count parameter of ReadExtSize (%s) was not recognised' % (rule, kind))
+        for k in (1, 2, 4, 3):
+            model = ReaderModel(prog, 0, table, kind)
+            it = TabInterp(prog, model)
+
+            def init(it_, fr):
+                for p in f.params:
+                    pt = f.tu['types'][p['t']]
+                    if p is kparam[0]:
+                        fr.env[p['d']] = k
+                    elif 'CBinaryStreamReader' in pt:
+                        fr.alias[p['d']] = 'this.mBinaryStreamReader'
+                    elif 'basic_string_view' in pt:
+                        fr.env[p['d']] = Sym('INPUT')
+                    elif p.get('n') == 'pos':
+                        fr.env[p['d']] = Pos(0)
+                    else:
+                        fr.env[p['d']] = TOP
+                it_.off = 0
+            bad = None
+            n_ret = 0
+            for p in it.run(f, init):
+                if not sufficient(p):
+                    continue
+                reads = [(a[1], a[2]) for a in p.actions if a[0] == 'READ']
+                if p.outcome[0] == 'THROW':
+                    if k != 3:
+                        bad = 'throws %s for a %d-byte length field' % (p.outcome[1], k)
+                    continue
+                n_ret += 1
+                v = p.outcome[1]
+                if k == 3:
+                    bad = 'returns a value for the byte count 3'
+                elif reads != [(k, 'u')]:
+                    bad = 'reads %s for a %d-byte length field (expected one unsigned read of %d byte(s)): %s' % (
+                        ['%d byte(s) %s' % (n_, 'signed' if s_ == 's' else 'unsigned') for n_, s_ in reads] or 'nothing', k, k,
+                        'a signed object sign-extends long lengths' if any(s_ == 's' for _, s_ in reads) else 'wrong width')
+                elif not (isinstance(v, Sym) and isinstance(v.tag, tuple) and v.tag[0] == 'RD'):
+                    bad = 'does not return the value it read for a %d-byte length field' % k
+            if k != 3 and n_ret == 0 and bad is None:
+                bad = 'never returns for a %d-byte length field' % k
+            site = '%s|ReadExtSize|%d byte(s)' % (kind, k)
+            if bad:
+                rep.finding(rule, '%s|ReadExtSize|%s' % (kind, bad.split(':')[0][:50]), f.loc(), '%s reader ReadExtSize %s' % (kind, bad), func=f.id)
+            else:
+                rep.ok(rule, site, sample={'reader': kind, 'length_field_bytes': k})
